@@ -897,7 +897,7 @@ def help_options():
         raise Unsupported("HELP not found in runner.py")
     rows = []
     for l in txt.split("\n"):
-        m = re.fullmatch(r" {4}--(\[no-\])?([a-z0-9][a-z0-9-]*)(=\S+)?", l)
+        m = re.fullmatch(r" {4}--(\[no-\])?([A-Za-z0-9][A-Za-z0-9_-]*)(=\S+)?", l)
         if m:
             rows.append((m.group(2), bool(m.group(1)), bool(m.group(3))))
         elif re.match(r" {4}--", l):
